@@ -208,7 +208,12 @@ def render_body(k, part, rot):
         forms = [[['x%d = p(%d)' % (k, k)]],
                  [['y%d = 1' % k], ['x%d = p(%d)' % (k, k)]],
                  [['x%d = [p(%d),' % (k, k), '       0]']],
-                 [['for _i in [0]:', '    x%d = p(%d)' % (k, k)]]]
+                 [['for _i in [0]:', '    x%d = p(%d)' % (k, k)]],
+                 # decorated definitions: the statement starts at its first decorator line, whatever is defined
+                 [['@pd(%d)' % k, 'class K%d(object):' % k, '    pass']],
+                 [['@pd(%d)' % k, 'async def g%d():' % k, '    pass']]]
+        if rot % 11 == 3:
+            forms = forms[4:5]                   # (weighted: the rarer shapes get their share of the rotation)
         if single:
             forms = [f for f in forms if len(f) == 1]
         return forms[rot % len(forms)]
@@ -218,6 +223,7 @@ def render_body(k, part, rot):
                  [['x%d = p(%d,' % (k, k), '       %s)' % o1]],
                  [['if True:', '    x%d = p(%d, %s)' % (k, k, o1)]],
                  [['@pd(%d, %s)' % (k, o1), 'def f%d():' % k, '    pass']],
+                 [['@pd(%d, %s)' % (k, o1), 'class K%d(object):' % k, '    a = 1']],
                  # a comment line INSIDE the statement does not make a trailing directive a block directive
                  [['x%d = p(%d,' % (k, k), '       # a plain comment between the arguments', '       %s)' % o1]],
                  [['for _i in [0]:', '    # a plain comment in the body', '    x%d = p(%d, %s)' % (k, k, o1)]]]
